@@ -450,6 +450,14 @@ func (r *rewriter) rewriteCall(n *ast.CallExpr) ast.Expr {
 			default:
 				gap(r.fset, n.Pos(), "math/rand.%s uses the runtime-seeded global generator", name)
 			}
+		case "github.com/tokenized/pkg/bitcoin":
+			if name == "GenerateSeedValue" && len(n.Args) == 0 {
+				// crypto/rand session hash: carried bytes only, but the DER length of signatures
+				// over it varies, which would make stream offsets (and fragmentation draws)
+				// differ between replays
+				r.counts["seed"]++
+				return r.call("SeedValue", n.Fun)
+			}
 		case "context":
 			switch name {
 			case "WithTimeout", "WithDeadline":
